@@ -9,7 +9,7 @@ Single steps (scripted or real driver answers):
   `stepP <cur> <recv> <prov> <send01> <upd01> <submit: ok|exists|other|real0|real1>`
   `stepR <cur> <recv> <prov> <send01> <validate: 0|1|real> <expect: 0|1|realN|realP>`
 Whole runs (composites of the model's small steps, see `PoolModel/C16.lean`):
-  `reset` | `dlv P|R i` | `rerr P|R` | `restart P|R` | `crash P|R i k` | `fin P|R st` | `race P|R a b st bf|fb`
+  `reset` | `dlv P|R i` | `rerr P|R` | `restart P|R` | `crash P|R i k` | `fin P|R st` | `cancel P|R` | `complete P|R` | `race P|R a b st bf|fb`
 -/
 namespace Pool.C16
 open Pool.Util
@@ -227,6 +227,15 @@ def drvStep (st : DrvSt) (args : List String) : DrvSt × String :=
     | some prov, some fs =>
       let s0 := st.sys
       match apply s0 (.finalize prov fs) with
+      | none => (st, "not-enabled")
+      | some s1 => let s2 := settle prov 8 s1; ({ sys := s2 }, sumTok s0 s2)
+    | _, _ => (st, "bad-op")
+  | [rpc, side] =>
+    match parseSide side, (if rpc == "cancel" then some (Act.cancelRPC) else if rpc == "complete" then
+        some (Act.completeRPC) else none) with
+    | some prov, some mk =>
+      let s0 := st.sys
+      match apply s0 (mk prov) with
       | none => (st, "not-enabled")
       | some s1 => let s2 := settle prov 8 s1; ({ sys := s2 }, sumTok s0 s2)
     | _, _ => (st, "bad-op")
